@@ -61,7 +61,10 @@ def env():
     return _T
 
 
-def front_decision(n1d, coord, nthread, npart):
+_DENS = {}
+
+
+def front_decision(n1d, coord, nthread, npart, orient=0):
     """Run the real tsc_parallel front end; returns ('accept', effective npartition) | ('reject', msg) | ('error', msg)"""
     import warnings
     T = env()
@@ -76,9 +79,16 @@ def front_decision(n1d, coord, nthread, npart):
     g = T['front'].__globals__
     g['_tsc_parallel'] = capture
     # partition_parallel stays the real kernel (interpreted twin, zero particles): whatever it does to the thread count is seen
-    shape = [2, 2, 2]
+    # the partition axis has n1d cells; one of the other two axes is much longer (so using the wrong axis length
+    # for the stripe-width rule would accept unsafe stripe counts), the third much shorter
+    shape = [1, 1, 1]
+    shape[(coord + 1 + orient) % 3] = 4 * n1d + 3
     shape[coord] = n1d
-    dens = np.zeros(shape, dtype=np.float32)
+    key = tuple(shape)
+    dens = _DENS.get(key)
+    if dens is None:
+        _DENS.clear()
+        dens = _DENS[key] = np.zeros(shape, dtype=np.float32)
     pos = np.zeros((0, 3), dtype=np.float32)
     try:
         with warnings.catch_warnings():
@@ -150,6 +160,11 @@ def run_config(case):
         for npart in [None] + list(range(1, n1d + 1)):
             verdict, info = front_decision(n1d, coord, nthread, npart)
             ncalls += 1
+            if nthread in (2, 16):
+                v2, i2 = front_decision(n1d, coord, nthread, npart, orient=1)
+                ncalls += 1
+                if (v2, i2 if v2 == 'accept' else None) != (verdict, info if verdict == 'accept' else None):
+                    probs.append(dict(sig='front:decision-depends-on-other-axes', msg=f'n1d={n1d} coord={coord} nthread={nthread} npartition={npart}: {verdict} {info} vs {v2} {i2} when the long and short other axes are swapped'))
             if verdict == 'error':
                 probs.append(dict(sig='front:unexpected-error', msg=f'n1d={n1d} nthread={nthread} npartition={npart}: {info}'))
             elif verdict == 'accept':
